@@ -209,9 +209,6 @@ def check(spec, ctx):
         reg = registries.registry(spec["reg"])
         keys = list(reg)
         check_mapping(reg, {k: None for k in keys}, "embedded %s" % spec["reg"])
-        # len/iter must agree with the loaded data, item by item
-        if sorted(keys) != sorted(reg._data) if hasattr(reg, "_data") else False:
-            raise Violation("ITER-KEYS", "embedded %s: iteration and loaded items disagree" % spec["reg"])
         for k in keys:
             ctx.nontrivial.add(hash((spec["reg"], k)) & 0xFFFFFFFFFFFFFFFF)
         ctx.event("embedded-items", len(keys))
